@@ -3109,6 +3109,8 @@ class Wallet(object):
                 self._key_objects[kb['id']]._balance = kb['balance']
         self.session.bulk_update_mappings(DbKey, key_balance_list)
         self._commit()
+        # The bulk update bypasses the session: reload DbKey objects which are already loaded
+        self.session.query(DbKey).filter_by(wallet_id=self.wallet_id).populate_existing().all()
         _logger.info("Got balance for %d key(s)" % len(key_balance_list))
         return self._balances
 
